@@ -241,7 +241,8 @@ def pandas_diff(rng, n=200):
                    best["params"].values[0], float(best["trial_mean"].values[0]),
                    [float(x) for x in key.values], int(key.idxmin()), int(key.idxmax()), float(key.min()), float(key.max()),
                    [float(x) for x in k2.to_numpy()], float(srt["trial_mean"].values[0]), df.iloc[[rows - 1]]["params"].values[0],
-                   len(df), [float(x) for x in df["trial_mean"].rank(method="min", ascending=asc).values],
+                   len(df), list(df.filter(regex=r"^trial_\d$").columns), list(df.filter(like="rank").columns),
+                   [float(x) for x in df["trial_mean"].rank(method="min", ascending=asc).values],
                    [math.isnan(float(x)) for x in df["rank_std"].values]]
             if cols > 1:
                 rec.append([float(x) for x in df["rank_std"].values])
